@@ -134,6 +134,9 @@ func (obj *SparseReal64Vector) SET(x *SparseReal64Vector) {
   }
 }
 func (obj *SparseReal64Vector) SLICE(i, j int) *SparseReal64Vector {
+  if i < 0 || i > j || j > obj.n {
+    panic(fmt.Errorf("slice (%d:%d) out of bounds for vector of dimension %d", i, j, obj.n))
+  }
   r := nilSparseReal64Vector(j-i)
   for it := obj.indexIteratorFrom(i); it.Ok(); it.Next() {
     if it.Get() >= j {
